@@ -58,7 +58,7 @@ structure RSplit where
   rg : Nat
   off : Nat
   n : Nat
-deriving Repr, DecidableEq
+deriving Repr, DecidableEq, Inhabited
 
 inductive ReadErr where
   | rowGroupOutOfRange     -- "split refers to row group … which has only …"
